@@ -1040,7 +1040,7 @@ func stressMain(rounds int) {
 						status = "wait-failed"
 					}
 				}
-			case <-time.After(300 * time.Second):
+			case <-time.After(900 * time.Second):
 				cmd.Process.Kill()
 				status = "hang"
 			}
